@@ -104,7 +104,11 @@ def shards(tier, seed):
             for plan in ("grid", "cond"):
                 out.append({"kind": "range", "sub": sub, "size_index": si, "plan": plan, "path": PATH_ORDER[(si + seed + (plan == "cond")) % 3]})
                 sub += 1
+        out.append({"kind": "mutate", "sub": sub, "n": 60, "steps": 8, "path": PATH_ORDER[seed % 3]})
+        sub += 1
     else:
+        for i in range(6):
+            out.append({"kind": "mutate", "sub": 900 + i, "n": 400, "steps": 12, "path": PATH_ORDER[(i + seed) % 3]})
         for i in range(30):
             out.append({"kind": "trav", "sub": sub, "part": i, "parts": 30, "n_random": 6000, "directed_frac": 1.0, "path": (PATH_ORDER + ["fastnet-fallback"])[(i + seed) % 4]})
             sub += 1
@@ -1123,6 +1127,94 @@ async def _run_range(spec, rec, path):
         tree.close()
 
 
+# ===================================================================================================
+# a tree that changes between requests (confinement and exact bytes must hold for the tree as it is *now*)
+
+MUT_STATES = ("absent", "fileA", "fileB", "link-in", "link-out", "link-outdir")
+
+
+def _mut_apply(root: str, outside: str, name: str, state: str):
+    import shutil
+
+    p = os.path.join(root, name)
+    if os.path.islink(p) or os.path.isfile(p):
+        os.unlink(p)
+    elif os.path.isdir(p):
+        shutil.rmtree(p)
+    if state == "fileA":
+        open(p, "wb").write(b"INSIDE-A:" + name.encode() + b":" + b"a" * 40)
+    elif state == "fileB":
+        open(p, "wb").write(b"INSIDE-B:" + name.encode() + b":" + b"b" * 1500)
+    elif state == "link-in":
+        os.symlink(os.path.join(root, "anchor.txt"), p)
+    elif state == "link-out":
+        os.symlink(os.path.join(outside, "secret.txt"), p)
+    elif state == "link-outdir":
+        os.symlink(outside, p)
+
+
+async def _run_mutating(spec, rec, path):
+    """Programs of (change one name of the tree, request it under every configuration).  The answer must fit the tree as
+    it is at the time of the request: outside content is never served without break_symlink_sandbox, a regular file is
+    served with its current bytes, a name that is gone is 404 - whatever an earlier request for the same name saw."""
+    import shutil
+    import tempfile
+
+    rng = random.Random(spec["seed"] * 1000003 + spec["sub"] * 7919 + 5)
+    base = tempfile.mkdtemp(prefix="c15-mut-")
+    root, outside = os.path.join(base, "root"), os.path.join(base, "outside")
+    os.mkdir(root)
+    os.mkdir(outside)
+    SECRET = b"TOP-SECRET-OUTSIDE-THE-ROOT:" + b"s" * 64
+    open(os.path.join(outside, "secret.txt"), "wb").write(SECRET)
+    open(os.path.join(root, "anchor.txt"), "wb").write(b"ANCHOR-INSIDE:" + b"k" * 30)
+    servers = Servers()
+    try:
+        await servers.start(root, CONFIGS)
+        names = ["n0", "n1", "n2"]
+        for prog in range(spec["n"]):
+            state = {}
+            for nm in names:
+                _mut_apply(root, outside, nm, "absent")
+                state[nm] = "absent"
+            history = []
+            for step in range(spec["steps"]):
+                nm = rng.choice(names)
+                if rng.random() < 0.75 or step == 0:
+                    st = rng.choice(MUT_STATES)
+                    _mut_apply(root, outside, nm, st)
+                    state[nm] = st
+                    history.append(f"set {nm}={st}")
+                st = state[nm]
+                target = PREFIX + b"/" + nm.encode() + (b"/secret.txt" if st == "link-outdir" and rng.random() < 0.7 else b"")
+                for cfg in CONFIGS:
+                    follow, index = cfg
+                    data, err = await fetch(servers.ports[cfg], build_request(b"GET", target, []))
+                    r = parse_response(data, b"GET", err)
+                    history.append(f"GET {target.decode()} cfg={int(follow)}{int(index)} -> {r.status}")
+                    rec.case(("mutate", spec["sub"], prog, step, cfg), nontrivial=len(history) > 2)
+                    rec.count(f"mutate:state:{st}:status:{r.status}")
+                    body = r.body or b""
+                    wit = {"kind": "mutate", "path": path, "history": history[-14:], "cfg": list(cfg), "state": st}
+                    if SECRET[:27] in body and not follow:
+                        rec.violation("mutate:outside-content-served:no-follow", f"{target!r} is now a {st}; break_symlink_sandbox=False answered {r.status} with the outside file; history {history[-6:]}", wit)
+                    elif st in ("fileA", "fileB") and target.endswith(nm.encode()):
+                        cur = open(os.path.join(root, nm), "rb").read()
+                        if r.status != 200 or body != cur:
+                            rec.violation("mutate:regular-file-not-served-with-current-bytes", f"{nm} is a regular file of {len(cur)} bytes now; got {r.status} with {len(body)} bytes ({body[:20]!r}); history {history[-6:]}", wit)
+                    elif st == "absent" and r.status != 404:
+                        rec.violation("mutate:absent-name-not-404", f"{nm} does not exist now; got {r.status} {body[:30]!r}; history {history[-6:]}", wit)
+                    elif st == "link-in" and (r.status != 200 or not body.startswith(b"ANCHOR-INSIDE:")):
+                        rec.violation("mutate:inside-link-not-served", f"{nm} links to a file inside the root; got {r.status}; history {history[-6:]}", wit)
+                    elif st in ("link-out", "link-outdir") and not follow and r.status == 200:
+                        rec.violation("mutate:outside-link-answered-200:no-follow", f"{target!r} -> {st}; got 200 {body[:30]!r}; history {history[-6:]}", wit)
+            if prog % 25 == 0:
+                rec.sample({"kind": "mutate", "history": history[:16]})
+    finally:
+        await servers.stop()
+        shutil.rmtree(base, ignore_errors=True)
+
+
 def _run(coro):
     import asyncio
 
@@ -1143,6 +1235,8 @@ def run_shard(spec, rec):
     rec.count("send-path:" + path)
     if spec["kind"] == "trav":
         _run(_run_traversal(spec, rec, path))
+    elif spec["kind"] == "mutate":
+        _run(_run_mutating(spec, rec, path))
     else:
         _run(_run_range(spec, rec, path))
 
@@ -1165,6 +1259,10 @@ def replay(witness, rec):
     if path not in PATHS:
         path = "fastnet"
     _ensure_path(path)
+    if witness["kind"] == "mutate":
+        rec.note("mutating-tree witnesses carry their history; re-run the shard with the same VERIF_SEED to reproduce")
+        _run(_run_mutating({"seed": witness.get("seed", 0), "sub": witness.get("sub", 0), "n": 60, "steps": 8}, rec, path))
+        return
     if witness["kind"] == "trav":
         cfg = tuple(bool(x) for x in witness["cfg"])
 
